@@ -566,6 +566,9 @@ impl Stream {
         let group = self.consumer_groups.get_group(group_name)
             .ok_or_else(|| format!("NOGROUP No such consumer group {} for stream", group_name))?;
         
+        // The consumer exists from its first read on, whether or not entries become pending for it
+        group.create_consumer(consumer_name.to_string());
+        
         // Get entries after the specified ID
         let data = self.data.lock().unwrap();
         let entries = if after_id == StreamId::max() {
